@@ -62,6 +62,14 @@ CHECKS = {
          "All 8 format tables x 4 configured formats x writer behaviours / FileSink special paths are decided on the real sinks (success iff the configured bytes exist and the write succeeds; exactly one write of exactly those bytes). Concurrent Process calls on one writer.Sink are explored over all interleavings with a scheduling point inside the underlying Write (never two calls inside at once). ChannelSink is explored over all interleavings of Process, consumer, cancel and timer threads: success iff the very event reached the channel once, errors only once the timeout fired or the context was done, never blocked forever.",
          "Timers are modelled (virtual clock, fired by a harness thread); FileSink write errors cannot be injected and are not covered.",
          "DESIGN.md §3 C13"),
+ "C14": ("bounded-exhaustive enumeration of payloads from a JSON value grammar x event types x formatter variants with a decode-and-compare oracle; all-interleavings exploration of Event.FormattedAs/Format under the race detector with brute-force linearizability",
+         "About 66k (quick) cases: every value of the grammar (15 leaves incl. control characters, invalid UTF-8, big integers, NaN/Inf, chan/func/complex; maps, slices, tagged structs, pointers; depth 3) x 4 event types x 5 node variants is formatted by the real nodes; the stored bytes are decoded and compared with the JSON image computed from the value's descriptor; payload/type/time must be untouched; unencodable payloads give (nil, err) and store nothing; forwarding truth tables incl. Filter. Event.FormattedAs/Format: all interleavings of 2-3 threads x 2 operations on 2 keys, results linearizable to a last-writer-wins map, no race.",
+         "encoding/json's decoder reads the output; the expected image never comes from encoding the value.",
+         "DESIGN.md §3 C14"),
+ "C18": ("exhaustive enumeration of the configuration x payload x signer x predicate product on the real cloudevents FormatterFilter with a parse-back oracle",
+         "All 4320 combinations of payload kind, format, source, schema, signer (absent/succeeding/failing), listed/unlisted type and predicate outcome are run; the emitted bytes are parsed back and every required member, the data, content type, schema, indentation, id rules and the signature contract (serialized decodes to exactly what the signer saw and to the unsigned document; serialized_hmac is the signer's result; failing signer => nothing forwarded) are checked. Found and fixed: sign() errors were ignored. Known finding: the content-type member name is misspelled (pinned by the repository's own tests).",
+         "The harness signer records its input; an unsigned twin run gives the byte-exact expected serialized document when the id is fixed.",
+         "DESIGN.md §3 C18"),
 }
 
 NOT_YET = "check not built yet in this session (work in progress; see DESIGN.md for the plan)"
